@@ -75,14 +75,18 @@ fn execute(terms: &[(u32, &str)], p2: &[(u32, u32)], p3: &[Op3]) -> (Vec<bool>, 
     (r2, r3, ont)
 }
 
-fn history_json(p2: &[(u32, u32)], p3: &[Op3]) -> Value {
-    json!({"terms_present": [1, 2], "every_other_term_id": "absent",
+fn history_json(terms: &[(u32, &str)], p2: &[(u32, u32)], p3: &[Op3]) -> Value {
+    json!({"terms_present": terms.iter().map(|t| t.0).collect::<Vec<_>>(), "every_other_term_id": "absent",
         "phase AllTerms": p2.iter().map(|(p, c)| format!("add_parent(parent={p}, child={c})")).collect::<Vec<_>>(),
         "phase ConnectedTerms": p3.iter().map(|o| o.describe()).collect::<Vec<_>>()})
 }
 
-fn rust_of(p2: &[(u32, u32)], p3: &[Op3]) -> String {
-    let mut s = String::from("let mut b = hpo::builder::Builder::new();\nb.new_term(\"T1\", 1u32);\nb.new_term(\"T2\", 2u32);\nlet mut b = b.terms_complete();\n");
+fn rust_of(terms: &[(u32, &str)], p2: &[(u32, u32)], p3: &[Op3]) -> String {
+    let mut s = String::from("let mut b = hpo::builder::Builder::new();\n");
+    for (id, name) in terms {
+        s.push_str(&format!("b.new_term(\"{name}\", {id}u32);\n"));
+    }
+    s.push_str("let mut b = b.terms_complete();\n");
     for (p, c) in p2 {
         s.push_str(&format!("let _ = b.add_parent({p}u32, {c}u32);\n"));
     }
@@ -120,13 +124,16 @@ fn rust_of(p2: &[(u32, u32)], p3: &[Op3]) -> String {
 }
 
 fn check_history(ctx: &mut Ctx, p2: &[(u32, u32)], p3: &[Op3]) {
-    let present = [1u32, 2u32];
-    let terms = [(1u32, "T1"), (2u32, "T2")];
+    check_history_on(ctx, &[(1u32, "T1"), (2u32, "T2")], p2, p3)
+}
+
+fn check_history_on(ctx: &mut Ctx, terms: &[(u32, &str)], p2: &[(u32, u32)], p3: &[Op3]) {
+    let present: Vec<u32> = terms.iter().map(|t| t.0).collect();
     ctx.exec();
     ctx.validated();
     ctx.transitions((2 + p2.len() + p3.len()) as u64);
-    let case = || json!({"history": history_json(p2, p3), "rust": rust_of(p2, p3)});
-    let res = guard(|| execute(&terms, p2, p3));
+    let case = || json!({"history": history_json(terms, p2, p3), "rust": rust_of(terms, p2, p3)});
+    let res = guard(|| execute(terms, p2, p3));
     let (r2, r3, ont) = match res {
         Ok(x) => x,
         Err(p) => {
@@ -163,7 +170,7 @@ fn check_history(ctx: &mut Ctx, p2: &[(u32, u32)], p3: &[Op3]) {
     };
     // (c) equals the ontology described by the successful calls alone (model) ...
     let mut f = Facts::default();
-    f.terms = vec![Facts::term(1, "T1"), Facts::term(2, "T2")];
+    f.terms = terms.iter().map(|(id, name)| Facts::term(*id, name)).collect();
     for (i, &(p, c)) in p2.iter().enumerate() {
         if r2[i] {
             f.edges.push((c, p));
@@ -190,7 +197,7 @@ fn check_history(ctx: &mut Ctx, p2: &[(u32, u32)], p3: &[Op3]) {
     let ok3: Vec<Op3> = p3.iter().enumerate().filter(|(i, _)| r3[*i]).map(|(_, x)| *x).collect();
     if ok2.len() != p2.len() || ok3.len() != p3.len() {
         ctx.nontrivial();
-        match guard(|| execute(&terms, &ok2, &ok3)) {
+        match guard(|| execute(terms, &ok2, &ok3)) {
             Ok((_, _, clean)) => match Obs::of(&clean) {
                 Ok(cobs) => {
                     if let Some((site, sig, det)) = obs.diff(&cobs, true) {
@@ -327,6 +334,36 @@ pub fn run(ctx: &mut Ctx) {
                 check_history(ctx, p2, p3);
             }
             ctx.sample(|| json!({"AllTerms": p2.iter().map(|(p, c)| format!("add_parent({p},{c})")).collect::<Vec<_>>(), "absent_term": absent}));
+        }
+    }
+
+    // ---- a parent that already has several children when calls naming absent children arrive: the absent ids lie
+    // below, between and above the ids of the children that exist (a rejected call must leave the parent's child
+    // list exactly as it was - members, order of the sorted list, no duplicates after a later valid repeat)
+    {
+        let terms4: [(u32, &str); 4] = [(1, "T1"), (10, "T10"), (20, "T20"), (30, "T30")];
+        let p2_wide: [(u32, u32); 10] = [(1, 10), (1, 20), (1, 30), (1, 5), (1, 15), (1, 25), (1, 35), (10, 30), (10, 25), (15, 30)];
+        let d = if thorough { 5 } else { 4 };
+        let a = sequences(&p2_wide, d);
+        let b: Vec<Vec<Op3>> = vec![
+            vec![],
+            vec![Op3::Annotate(Kind::Gene, 7, 30)],
+            vec![Op3::Annotate(Kind::Gene, 7, 15), Op3::Annotate(Kind::Gene, 7, 20)],
+            vec![Op3::Annotate(Kind::Omim, 7, 20), Op3::Annotate(Kind::Omim, 7, 25), Op3::Annotate(Kind::Orpha, 8, 10)],
+        ];
+        ctx.space("histories/parent-with-several-children", &format!("terms 1, 10, 20, 30 present, every other id absent: {} add_parent sequences (<= {d} over 10 calls: children 10, 20, 30 and absent 5, 15, 25, 35 below term 1, children 30 and absent 25 below term 10, absent parent 15) x 4 annotate sequences (none; valid; absent term then valid; valid, absent, valid)", a.len()));
+        let block = 64usize;
+        for chunk in a.chunks(block) {
+            if !ctx.take() {
+                continue;
+            }
+            ctx.states(chunk.len() as u64);
+            for p2 in chunk {
+                for p3 in &b {
+                    check_history_on(ctx, &terms4, p2, p3);
+                }
+            }
+            ctx.sample(|| json!({"AllTerms, first of the block": chunk[0].iter().map(|(p, c)| format!("add_parent({p},{c})")).collect::<Vec<_>>()}));
         }
     }
 
